@@ -106,7 +106,9 @@ def step : St2 → Side → Notif → St2 × List Notif
 
 /-- `is_finished` of the observer handed to the given input. -/
 def finished : St2 → Side → Bool → Bool
-  | skipUntil _ _, .b, _ => false
+  -- after `fix: skip_until's notifier observer reports finished …`: done once it has fired,
+  -- not needed once the main stream has ended (slot empty); the downstream's answer is not consulted
+  | skipUntil al sk, .b, _ => !sk || !al
   | s, _, down => !s.alive || down
 
 /-- Which input `actual_subscribe` subscribes first. -/
